@@ -533,7 +533,10 @@ func VerifyDiffProof(actions []RPCWriteAction, numLeaves uint64, treeHashes, lea
 		}
 		insertRange(start, numLeaves)
 
-		return acc.root() == root && len(treeHashes) == 0
+		// NOTE: insertRange stops early if the tree hashes run out; unless the
+		// leaf count is checked, a proof built for one set of indices can then
+		// be accepted for another
+		return acc.root() == root && len(treeHashes) == 0 && acc.numLeaves == numLeaves
 	}
 
 	// first use the original proof to construct oldRoot
